@@ -764,7 +764,7 @@ func raceChild(o *cq.Opts) {
 			c, _ := genCase(r, comp)
 			runnerOf(&c)(&c, newCaller(true), &fails)
 		}
-		for _, kind := range append([]string{"sized"}, xKinds...) {
+		for _, kind := range xRaceKinds {
 			c, _ := genXCase(r, kind)
 			runnerOf(&c)(&c, newCaller(true), &fails)
 		}
